@@ -367,7 +367,9 @@ def check_property(pid, tier="quick", seed=0):
     units, fnspecs = VS.load_all(os.path.join(VERIF, "contracts"))
     unames = units_for_property(pid, units)
     if not unames:
-        raise Undecided(f"no unit carries obligations for {pid}")
+        import kani_runner as KR0
+        if pid not in KR0.HARNESSES:
+            raise Undecided(f"no unit carries obligations for {pid}")
     use_cache = tier == "quick" and os.environ.get("VERIF_NO_CACHE") != "1"
     runs = [UnitRun(n, tier, rlimit=(max(40, 2 * units[n].rlimit) if tier == "thorough" else (units[n].rlimit or None)),
                     extra_args=(["--smt-option", f"smt.random_seed={seed % 1000}"] if tier == "thorough" else []),
@@ -469,12 +471,30 @@ def check_property(pid, tier="quick", seed=0):
     if suspects:
         problems.append("obligation(s) failed in function(s) whose proof hints lost their anchor (the failure may be the missing hint): "
                         + "; ".join(sorted({f"{inf['path']} [{(f['labels'] or [f['kind']])[0]}]" for inf, f, r in suspects})))
+
+    # ---- Kani component (byte-level codecs: complete proofs on the compiled crate) --------------
+    kani_part = None
+    kani_lines = []
+    import kani_runner as KR
+    if pid in KR.HARNESSES:
+        kani_part = KR.run_group(pid, tier, seed)
+        obligations += kani_part["obligations"]
+        discharged += kani_part["obligations"] - kani_part["failed"]
+        problems += kani_part["undecided"]
+        kani_lines = kani_part["lines"]
+        for (hname, hlabel, htext), hr in zip(KR.HARNESSES[pid], kani_part["results"]):
+            fn_table.append({"function": f"kani harness {hname}", "unit": "KANI", "labelled": [hlabel], "builtin_sites": hr["checks_total"],
+                             "unlabelled_clauses": 0, "verified": bool(hr["successful"]), "time_ms": round(1000 * (hr.get("cbmc_s") or 0), 1), "rlimit": 0})
+            if len(samples) < 8:
+                samples.append({"function": f"kani harness {hname}", "label": [hlabel], "clause": htext})
+        trusted.add("Kani 0.68.0 / CBMC 6.11 for the byte-level codec harnesses (kani/src/lib.rs): fully symbolic inputs, loop bounds = prefix length <= 8 with unwinding assertions on; built with --cfg chia_network_clvm_rs_verif (hooks re-export private functions, add-only)")
+
     if obligations == 0 and not problems:
         problems.append(f"vacuity: zero obligations counted for {pid}")
 
     # ---- known findings -----------------------------------------------------------------------
     known = [k for k in load_known() if pid in k["properties"]]
-    out_lines = []
+    out_lines = list(kani_lines)
     real_violations = []
     replay_built = None
     if strict_fail or violations or problems:
@@ -502,7 +522,7 @@ def check_property(pid, tier="quick", seed=0):
         real_violations.append((inf, f, r, ""))
 
     # ---- violations ---------------------------------------------------------------------------
-    rc = 0
+    rc = 1 if any(l.startswith("VIOLATION") for l in kani_lines) else 0
     os.makedirs(os.path.join(VERIF, "evidence", "replay"), exist_ok=True)
     finder_timeout = 900 if tier == "thorough" else 300
     finder_result = None
@@ -551,6 +571,7 @@ def check_property(pid, tier="quick", seed=0):
             "units": [{"unit": r.name, "verus_wall_s": round(getattr(r, "wall_s", 0), 2), "cache_hit": getattr(r, "cache_hit", False), "smt_ms": r.smt_ms if hasattr(r, "smt_ms") else 0,
                        "verified": getattr(r, "vresults", {}).get("verified"), "errors": getattr(r, "vresults", {}).get("errors")} for r in live],
             "canaries_failed_as_required": len(canary_ok),
+            "kani_harnesses": ([{k: v for k, v in hr.items() if k != "tail"} for hr in kani_part["results"]] if kani_part else []),
             "lost_anchors": lost_all,
             "undecided_reasons": problems,
             "failing_input_search": finder_result,
